@@ -283,6 +283,43 @@ def concrete_purity(name):
   return bool(msgs), '; '.join(msgs[:3]) or 'pure on the concrete run'
 
 
+def concrete_pickle_continue(name):
+  """Auxiliary concrete clause: serialise a reachable state with the real save_state/load_state and continue from the
+  restored copy; the subsequent states must equal those obtained from the original (values, dtypes, weak types)."""
+  import tempfile, shutil
+  from fedjax.core import serialization
+  N = sum(SIZES)
+  rng = np.random.RandomState(0)
+  X, y = jnp.asarray(rng.randn(N, D), jnp.float32), jnp.asarray(rng.randn(N), jnp.float32)
+  alg = build(name, X, y, DOMS)
+  s0 = init_state(name, alg, jnp.ones(D, jnp.float32), jnp.zeros((), jnp.float32))
+  keys = jax.random.split(jax.random.PRNGKey(0), len(SIZES))
+  clients = make_clients(DOMS, keys)
+  s1, _ = alg.apply(s0, clients)
+  tmp = tempfile.mkdtemp(prefix='vf_c10_')
+  try:
+    serialization.save_state(s1, tmp + '/state')
+    r1 = serialization.load_state(tmp + '/state')
+  finally:
+    shutil.rmtree(tmp, ignore_errors=True)
+  msgs = []
+  la, lb = jax.tree_util.tree_leaves(s1), jax.tree_util.tree_leaves(r1)
+  if jax.tree_util.tree_structure(s1) != jax.tree_util.tree_structure(r1):
+    msgs.append('restored state has a different structure')
+  else:
+    for a, b_ in zip(la, lb):
+      if hasattr(a, 'dtype') and (np.asarray(a).dtype != np.asarray(b_).dtype or not np.array_equal(np.asarray(a), np.asarray(b_)) or
+                                 getattr(a, 'weak_type', False) != getattr(b_, 'weak_type', False)):
+        msgs.append('restored leaf differs: %s/%s weak=%s vs %s/%s weak=%s' % (a.dtype, np.asarray(a).tolist(), getattr(a, 'weak_type', None),
+                                                                            getattr(b_, 'dtype', None), np.asarray(b_).tolist(), getattr(b_, 'weak_type', None)))
+    a2, _ = alg.apply(s1, clients)
+    b2, _ = alg.apply(r1, clients)
+    d, where = jh.max_discrepancy(a2, b2)
+    if d > 0 or [np.asarray(l).dtype for l in jax.tree_util.tree_leaves(a2)] != [np.asarray(l).dtype for l in jax.tree_util.tree_leaves(b2)]:
+      msgs.append('continuing from the restored state differs: %s' % where)
+  return bool(msgs), '; '.join(msgs[:2]) or 'restored state continues identically'
+
+
 # ---- compression aggregators ------------------------------------------------------------------------
 def agg_build(name, key, encode=None):
   c = _fx()['comp']
@@ -368,6 +405,8 @@ def concrete_agg_purity(name, encode=None):
 def replay(data):
   if data['kind'] == 'alg':
     return concrete_purity(data['name'])
+  if data['kind'] == 'pickle':
+    return concrete_pickle_continue(data['name'])
   return concrete_agg_purity(data['name'], data.get('encode'))
 
 
@@ -378,8 +417,8 @@ def check(run):
   run.trusted += ['z3', 'vf/symjx.py interpreter', 'donated_invars of the traced IR (jit enabled) + concrete is_deleted()/value confirmation',
                   'jax.device_get modelled as identity while tracing']
   run.assumptions += ['"same arguments" = the same Python objects passed twice within one symbolic execution',
-                      'serialise-and-continue clause: not claimed (pickle of concrete arrays is C-level); its structural part follows from '
-                      'outputs depending only on leaf values, which is what the equality of repeated calls checks',
+                      'serialise-and-continue clause: pickle is C-level, so it is exercised only by an auxiliary CONCRETE run (real save_state/load_state, '
+                      'one reachable state per algorithm); its structural part follows from outputs depending only on leaf values',
                       "encode_algorithm='arithmetic' (jnp.unique, data-dependent shapes) is outside the symbolic engine: covered only by the "
                       'auxiliary concrete double-call run']
   run.bounds = {'clients': SIZES, 'rounds': 2, 'calls per state': 2, 'algorithms': ALGS, 'aggregators': AGGS}
@@ -393,6 +432,11 @@ def check(run):
     run.ob('concrete-double-call:' + name, 'sat' if bad else 'unsat', detail=msg if bad else None, nontrivial=False)
     if bad and not any(v['key'].startswith(name + ':') for v in run.violations):
       run.violation('%s:concrete' % name, '%s: %s' % (name, msg), {'kind': 'alg', 'name': name}, True)
+  for name in ALGS:
+    bad, msg = concrete_pickle_continue(name)
+    run.ob('aux-concrete:serialise-and-continue:' + name, 'sat' if bad else 'unsat', detail=msg if bad else None, nontrivial=False)
+    if bad:
+      run.violation('%s:pickle-continue' % name, '%s: %s' % (name, msg), {'kind': 'pickle', 'name': name}, True)
   for name, enc in [(n, None) for n in AGGS] + [('uniform', 'arithmetic')]:
     bad, msg = concrete_agg_purity(name, enc)
     run.ob('concrete-double-call:agg:%s:%s' % (name, enc), 'sat' if bad else 'unsat', detail=msg if bad else None, nontrivial=False)
